@@ -58,7 +58,7 @@ EngineWords(e) ==
       asctr(w) == <<w[1][2], w[1][1], w[2][2], w[2][1]>>
       c1 == IF Has(e, "inc") THEN CtrAdd32(asctr(w2), e.inc) ELSE asctr(w2)
       c2 == IF Has(e, "inc64") THEN CtrAdd64(c1, e.inc64) ELSE c1
-  IN <<Lo32(c2), Hi32(c2), w2[3], w2[4]>>
+  IN <<IF Has(e, "ctr32b") THEN Lo32(e.ctr32b) ELSE Lo32(c2), Hi32(c2), w2[3], w2[4]>>       \* set_counter again: the low word is replaced, not combined
 ApplyEngine(e) ==
   LET s0 == InitState(e.key, EngineWords(e))
   IN IF e.op = "hchacha" THEN LET w == Rounds(s0, e.rounds) IN V(BytesOfLE32(SubSeq(w, 1, 4) \o SubSeq(w, 13, 16)))
